@@ -155,6 +155,7 @@ fn prefix(rng: &mut Rng, ctx: &mut Ctx) {
         // one file per framing regime in turn, finished (Game End present), varied container shape
         let (mut r, tags) = loop { let kk = k * 7 + (rng.next() % 50) as usize; let (r, t) = gen_replay(rng, kk, &go); let reg = ["regimeA", "regimeB", "regimeC", "regimeA"][k % 4]; let want_gecko = k % 4 == 3; /* the fourth file carries a Gecko list (Message Splitter blocks) */ if t[7] == reg && r.end.is_some() && (!want_gecko || (r.gecko.is_some() && r.frames.len() <= 2)) { break (r, t); } };
         if k % 4 == 3 { r.metadata = None; }
+        if k % 4 == 1 { r.metadata = Some(b"U\x01aSU\x01bU\x00{U\x01cl\x00\x00\x00\x07U\x00{U\x00{U\x01dSU\x00}}}".to_vec()); } /* the empty string is a key like any other: the file ends `}}}}}` */
         let b = encode(&r);
         for skip in [false, true] {
             let mut bad: Vec<usize> = vec![]; let mut bad_at: Vec<usize> = vec![];
@@ -313,6 +314,9 @@ fn irr(rng: &mut Rng, ctx: &mut Ctx) {
                 let chunks: Vec<&[u8]> = pay.chunks(512).collect(); let mut blocks = vec![];
                 for (ci, ch) in chunks.iter().enumerate() { let mut b = vec![0x10u8]; b.extend_from_slice(ch); b.extend(std::iter::repeat(0u8).take(512 - ch.len())); b.extend((ch.len() as u16).to_be_bytes()); b.push(code); b.push((ci + 1 == chunks.len()) as u8); blocks.push(b); }
                 body.splice(i..i + 1, blocks); tags.push(format!("wrapped:{:02x}", code)); } }
+        // the table lists event codes that exist, but not at this version, and that never occur (a recorder that writes one table for all versions):
+        // the version decides how frames are opened and closed, not what the table happens to list
+        if k % 6 == 4 { for (code, sz, since) in [(0x3Au8, 8u16, (2u8, 2u8)), (0x3C, 8, (3, 0)), (0x3B, 42, (3, 0))] { if !gte(r.v, since.0, since.1) && !sizes.iter().any(|x| x.0 == code) && !r.extra_payloads.iter().any(|x| x.0 == code) { r.extra_payloads.push((code, sz)); sizes.push((code, sz)); tags.push(format!("declared-unused:{:02x}", code)); } } }
         // a payload-size table that declares many event codes this game never uses (a recorder built with every optional event compiled in): up to
         // the 84 entries the table's one-byte length allows
         if k % 16 == 9 { let want = [30usize, 80, 29, 60, 28, 75][(k / 16) % 6]; /* (room left for the entries other irregularities of the same case add) */ let mut code = 0x40u8;
@@ -645,6 +649,8 @@ fn inc(rng: &mut Rng, ctx: &mut Ctx) {
                 match (k / 7) % 3 { 0 => sizes.insert(i, (e.0, e.1.wrapping_add(5))), 1 => sizes.push(e), _ => { sizes.insert(1, (e.0, 1)); sizes.push(e); } }
                 tags.push(format!("dup-table-entry:{}", (k / 7) % 3)); assemble(&r, &sizes, &body_events(&r, &Pad::default()), &[], &pad) }
             else { encode(&r) };
+        // one game in eleven has a Game Start block longer than the newest layout (a newer recorder): the start call counts all of it
+        let b = if k % 11 == 6 && k % 5 != 3 && k % 7 != 4 { let mut r2 = r.clone(); let n = r2.start_block.len().max(760) + [1usize, 4, 37, 300][(k / 11) % 4]; r2.start_block.resize(n, 0); tags.push("inc-long-start".into()); encode(&r2) } else { b };
         // one finished game in nine has raw length 0 in its header (the recorder never went back to fill it in): the event-level API is driven up to
         // Game End then, and the one-shot reader must return the same game
         let raw_end_real = 15 + u32::from_be_bytes([b[11], b[12], b[13], b[14]]) as usize;
@@ -716,6 +722,12 @@ fn inc(rng: &mut Rng, ctx: &mut Ctx) {
             let limit = if r.end.is_some() { raw_end - (if r.double_end { 2 } else { 1 }) * (1 + elen) + elen } else { raw_end - 1 };
             let mut cuts = vec![15 + (rng.next() as usize) % (limit - 15).max(1), 15 + (rng.next() as usize) % (limit - 15).max(1)];
             if r.end.is_some() && !r.double_end && elen >= 2 { cuts.push(raw_end - elen + 1); cuts.push(raw_end - 1); }
+            // cuts inside an event of a kind the library does not know (one byte in, half way, one byte short): the call that meets the end of the data there
+            // is an error like for any other event (a reader tailing a growing file waits for more), never a skipped event
+            let mut unk_cuts: Vec<usize> = vec![];
+            if k % 5 == 3 { let mut cur = Cursor::new(&b[..]); if slippi::de::parse_header(&mut cur, None).is_ok() { if let Ok(mut st0) = slippi::de::parse_start(&mut cur, None) {
+                loop { let p0 = cur.position() as usize; match slippi::de::parse_event(&mut cur, &mut st0, None) { Ok(code) => { let p1 = cur.position() as usize; if code == 0x7E && p1 - p0 >= 2 { unk_cuts = vec![p0 + 1, p0 + 1 + (p1 - p0 - 1) / 2, p1 - 1]; break; } if code == 0x39 || p1 >= raw_end { break; } } Err(_) => break } } } } }
+            cuts.extend(unk_cuts.iter().cloned());
             for cut in cuts { if cut >= raw_end || cut > limit || cut <= 16 { continue; }
                 let data = b[..cut].to_vec(); let mut fails: Vec<(String, String)> = vec![];
                 let res = std::panic::catch_unwind(std::panic::AssertUnwindSafe(|| -> Result<String, String> {
@@ -733,7 +745,7 @@ fn inc(rng: &mut Rng, ctx: &mut Ctx) {
                                 if n != g.frames.id.len() { let m = format!("stream cut at {}, event retried once its bytes were there: {} frames, the one-shot read has {}", cut, n, g.frames.id.len()); fails.push(("C12".into(), m.clone())); fails.push(("C04".into(), m)); }
                                 else if let Err(m) = completed_prefix_ok(&st, g, n.saturating_sub(1)) { let m = format!("stream cut at {}, event retried once its bytes were there: {}", cut, m); fails.push(("C03".into(), m.clone())); fails.push(("C12".into(), m.clone())); fails.push(("C04".into(), m)); } } }
                             return Err(format!("err {}", e)); } };
-                        if st.bytes_read() != src.pos - 15 { fails.push(("C12".into(), format!("stream cut at {}: after event {:#x} bytes_read {} != bytes delivered {}", cut, code, st.bytes_read(), src.pos - 15))); return Ok("ok overcount".into()); }
+                        if st.bytes_read() != src.pos - 15 { fails.push(("C12".into(), format!("stream cut at {}: after event {:#x} bytes_read {} != bytes delivered {}", cut, code, st.bytes_read(), src.pos - 15))); if unk_cuts.contains(&cut) { fails.push(("C08".into(), format!("stream ending inside an unknown event (cut at {}): the event-level API reports the event as read", cut))); } return Ok("ok overcount".into()); }
                         if code == 0x39 { fails.push(("C12".into(), format!("stream cut at {} (inside the raw element of {} bytes): the incremental API reports Game End", cut, raw_end - 15))); fails.push(("C07".into(), "incremental API reports a finished game on a truncated stream".into())); return Ok("ok gameend".into()); } } }));
                 let line = match res { Err(_) => { fails.push(("C06".into(), "incremental API panicked on a truncated stream".into())); "panic".to_string() } Ok(Err(_)) => "err".to_string(), Ok(Ok(s)) => s };
                 let mut c = Case::new(format!("inccut {} {}", cut, hex(&b)), line); c.oracle = fails; c.tags = vec!["inc-cut".into()]; ctx.push(c); } }
@@ -764,7 +776,7 @@ fn frag(rng: &mut Rng, ctx: &mut Ctx) {
         tags.push(format!("plan:{}", pname)); tags.push(format!("skip{}", skip as u8)); tags.push(format!("hash{}", hash as u8)); c.tags = tags;
         ctx.push(c);
         // the same read over a source that is interrupted (EINTR) every few calls: exact reads retry, the result is the same
-        if k % 3 == 0 {
+        if (k + k / 3) % 3 == 0 { /* (drifts against skip = k % 3 == 1: interrupted sources meet skip-frames and hashing in every combination) */
             let mut src = Chunked::new(b.clone(), plan.clone(), None); src.interrupt_every = 2 + k % 5;
             let res = std::panic::catch_unwind(move || slippi::read(src, Some(&read_opts(skip, hash))));
             let mut ihash: Option<Option<String>> = None;
